@@ -533,3 +533,56 @@ package go_clipper2
 //@   panics precOf(precisionV) < -8 || precOf(precisionV) > 8
 //@   ensures [empty] (rect.bottom <= rect.top || rect.right <= rect.left || len(paths) == 0) ==> len(result) == 0
 //@   ensures [composition] !(rect.bottom <= rect.top || rect.right <= rect.left || len(paths) == 0) ==> same(result, ScalePaths64ToPathsD(rectClipExec(ScaleRectD(rect, pow10(precOf(precisionV))), getPathRectClipLine, ScalePathsDToPaths64(paths, pow10(precOf(precisionV)))), 1/pow10(precOf(precisionV))))
+
+// ---------------------------------------------------------------------------------
+// C01 / C19 / C09: necessary-condition lemmas on the sweep's winding bookkeeping
+// ---------------------------------------------------------------------------------
+
+// fill rule applied to a winding number; boolean table of the four operations
+//@ spec fillW(fr FillRule, w int) bool = ite(fr == EvenOdd, w%2 != 0, ite(fr == NonZero, w != 0, ite(fr == Positive, w > 0, w < 0)))
+//@ spec insideOp(ct ClipType, s, c bool) bool = ite(ct == Intersection, s && c, ite(ct == Union, s || c, ite(ct == Difference, s && !c, ite(ct == Xor, s != c, false))))
+// own-type winding number on the left / right of an edge, recovered from the stored count (the one of larger magnitude) and the direction
+//@ spec leftW(wc, d int) int = ite(wc*d > 0, wc-d, wc)
+//@ spec rightW(wc, d int) int = leftW(wc, d) + d
+// membership of the region on one side of an edge of path type pt: own-type winding w, other-type fill o
+//@ spec memberSide(ct ClipType, pt PathType, own, other bool) bool = ite(pt == Subject, insideOp(ct, own, other), insideOp(ct, other, own))
+
+//@ lemma setIdentities props C19: forall(a, 0, 2, forall(b, 0, 2, (insideOp(Union, a == 1, b == 1) == (insideOp(Difference, a == 1, b == 1) || insideOp(Intersection, a == 1, b == 1) || insideOp(Difference, b == 1, a == 1))) && !(insideOp(Difference, a == 1, b == 1) && insideOp(Intersection, a == 1, b == 1)) && !(insideOp(Difference, a == 1, b == 1) && insideOp(Difference, b == 1, a == 1)) && !(insideOp(Intersection, a == 1, b == 1) && insideOp(Difference, b == 1, a == 1)) && (insideOp(Xor, a == 1, b == 1) == (insideOp(Union, a == 1, b == 1) && !insideOp(Intersection, a == 1, b == 1))) && (insideOp(Difference, a == 1, b == 1) == ((a == 1) && !insideOp(Intersection, a == 1, b == 1))) && (ite(insideOp(Union, a == 1, b == 1), 1, 0) + ite(insideOp(Intersection, a == 1, b == 1), 1, 0) == a + b)))
+
+//@ func clipperBase.isContributingClosed
+//@   props C01 C19
+//@   requires ae != nil && ae.localMin != nil && (ae.windDx == 1 || ae.windDx == -1)
+//@   requires c.fillRule == EvenOdd || ae.windCount != 0
+//@   requires c.fillRule == EvenOdd || c.fillRule == NonZero || c.fillRule == Positive || c.fillRule == Negative
+//@   ensures [contribution-rule] (c.clipType == Intersection || c.clipType == Union || c.clipType == Difference || c.clipType == Xor) ==> result == (memberSide(c.clipType, ae.localMin.PolyType, ite(c.fillRule == EvenOdd, false, fillW(c.fillRule, leftW(ae.windCount, ae.windDx))), ite(c.fillRule == EvenOdd, ae.windCount2 != 0, fillW(c.fillRule, ae.windCount2))) != memberSide(c.clipType, ae.localMin.PolyType, ite(c.fillRule == EvenOdd, true, fillW(c.fillRule, rightW(ae.windCount, ae.windDx))), ite(c.fillRule == EvenOdd, ae.windCount2 != 0, fillW(c.fillRule, ae.windCount2))))
+//@   ensures [noclip] c.clipType == NoClip ==> !result
+
+//@ func clipperBase.isContributingOpen
+//@   props C09
+//@   requires ae != nil
+//@   requires c.fillRule == EvenOdd || c.fillRule == NonZero || c.fillRule == Positive || c.fillRule == Negative
+//@   ensures [open-rule] result == ite(c.clipType == Intersection, ite(c.fillRule == EvenOdd, ae.windCount2 != 0, fillW(c.fillRule, ae.windCount2)), ite(c.clipType == Union, !ite(c.fillRule == EvenOdd, ae.windCount != 0, fillW(c.fillRule, ae.windCount)) && !ite(c.fillRule == EvenOdd, ae.windCount2 != 0, fillW(c.fillRule, ae.windCount2)), !ite(c.fillRule == EvenOdd, ae.windCount2 != 0, fillW(c.fillRule, ae.windCount2))))
+
+//@ spec repOK(wc, d int) bool = (d == 1 || d == -1) && wc != 0
+
+//@ func clipperBase.setWindCountForClosedPathEdge
+//@   props C01
+//@   nosafety
+//@   requires ae != nil && (ae.windDx == 1 || ae.windDx == -1)
+//@   assert after ae.windCount#0 [first-edge] ae.windCount == ae.windDx && leftW(ae.windCount, ae.windDx) == 0
+//@   assert after ae.windCount#2 [handover-2] (ae2 != ae && repOK(ae2.windCount, ae2.windDx)) ==> (leftW(ae.windCount, ae.windDx) == rightW(ae2.windCount, ae2.windDx) && ae.windCount != 0)
+//@   assert after ae.windCount#3 [handover-3] (ae2 != ae && repOK(ae2.windCount, ae2.windDx)) ==> (leftW(ae.windCount, ae.windDx) == rightW(ae2.windCount, ae2.windDx) && ae.windCount != 0)
+//@   assert after ae.windCount#5 [handover-5] (ae2 != ae && repOK(ae2.windCount, ae2.windDx)) ==> (leftW(ae.windCount, ae.windDx) == rightW(ae2.windCount, ae2.windDx) && ae.windCount != 0)
+//@   assert after ae.windCount#6 [handover-6] (ae2 != ae && repOK(ae2.windCount, ae2.windDx)) ==> (leftW(ae.windCount, ae.windDx) == rightW(ae2.windCount, ae2.windDx) && ae.windCount != 0)
+//@   assert after ae.windCount#7 [handover-7] (ae2 != ae && repOK(ae2.windCount, ae2.windDx)) ==> (leftW(ae.windCount, ae.windDx) == rightW(ae2.windCount, ae2.windDx) && ae.windCount != 0)
+
+//@ func clipperBase.intersectEdges
+//@   props C01 C19
+//@   nosafety
+//@   requires ae1 != nil && ae2 != nil && ae1 != ae2 && ae1.localMin != nil && ae2.localMin != nil
+//@   requires !c.hasOpenPaths && ae1.joinWith == JoinNone && ae2.joinWith == JoinNone
+//@   requires (ae1.windDx == 1 || ae1.windDx == -1) && (ae2.windDx == 1 || ae2.windDx == -1)
+//@   assert after e2WindCountIs0or1 [transfer-same-type] (ae1.localMin.PolyType == ae2.localMin.PolyType && c.fillRule != EvenOdd && old(ae1.windCount) != 0 && old(ae2.windCount) != 0 && rightW(old(ae1.windCount), ae1.windDx) == leftW(old(ae2.windCount), ae2.windDx)) ==> (leftW(ae2.windCount, ae2.windDx) == leftW(old(ae1.windCount), ae1.windDx) && rightW(ae1.windCount, ae1.windDx) == rightW(old(ae2.windCount), ae2.windDx) && rightW(ae2.windCount, ae2.windDx) == leftW(ae1.windCount, ae1.windDx) && ae1.windCount != 0 && ae2.windCount != 0 && ae1.windCount2 == old(ae1.windCount2) && ae2.windCount2 == old(ae2.windCount2))
+//@   assert after e2WindCountIs0or1 [transfer-same-type-evenodd] (ae1.localMin.PolyType == ae2.localMin.PolyType && c.fillRule == EvenOdd) ==> (ae1.windCount == old(ae2.windCount) && ae2.windCount == old(ae1.windCount) && ae1.windCount2 == old(ae1.windCount2) && ae2.windCount2 == old(ae2.windCount2))
+//@   assert after e2WindCountIs0or1 [transfer-other-type] (ae1.localMin.PolyType != ae2.localMin.PolyType && c.fillRule != EvenOdd) ==> (ae1.windCount2 == old(ae1.windCount2) + ae2.windDx && ae2.windCount2 == old(ae2.windCount2) - ae1.windDx && ae1.windCount == old(ae1.windCount) && ae2.windCount == old(ae2.windCount))
+//@   assert after e2WindCountIs0or1 [transfer-other-type-evenodd] (ae1.localMin.PolyType != ae2.localMin.PolyType && c.fillRule == EvenOdd && (old(ae1.windCount2) == 0 || old(ae1.windCount2) == 1) && (old(ae2.windCount2) == 0 || old(ae2.windCount2) == 1)) ==> (ae1.windCount2 == 1 - old(ae1.windCount2) && ae2.windCount2 == 1 - old(ae2.windCount2) && ae1.windCount == old(ae1.windCount) && ae2.windCount == old(ae2.windCount))
